@@ -487,6 +487,9 @@ class SchedAdapter:
         for e in self.log:
             if e[0] == 'log.exception':
                 report('C03/dispatch-exception', f'{e[1]}: {e[2]}')
+        for o in w.obs:
+            if o[0] == 'handler-exception':
+                report(f'C03/farm-handler-raised/{ev[0]}/{o[1]}', f'event {ev}: Hand.dataReceived raised {o[1]}: {o[2]}')
 
     # ---- C04
     def quiescent_truth(self):
